@@ -926,3 +926,138 @@ fire("option-keys-present-branch-drops-domain", ["C01", "C03"], "R-KC", O,
                 | self._domain_keys(options)""",
      """                {self.key}
                 | self._template_keys(value, "keys", options)""")
+
+# ------------------------------------------------------------------ round-4 strengthening (rules and engine features added after the fourth corpus)
+_TK_OLD = """        if isinstance(value, str):
+            return getattr(Template(value), method)(options)
+        if isinstance(value, Mapping):
+            value = list(value.values())
+        if isinstance(value, list):
+            return set().union(
+                *(Option._template_keys(item, method, options) for item in value)
+            )
+        return set()"""
+fire("template-keys-worklist-pushes-mapping-keys", ["C01", "C03", "C09", "C10"], "R-RK", O, _TK_OLD,
+     """        found: Set[str] = set()
+        pending = [value]
+        while pending:
+            item = pending.pop()
+            if isinstance(item, str):
+                found |= getattr(Template(item), method)(options)
+            elif isinstance(item, (Mapping, list)):
+                pending.extend(item)
+        return found""")
+silent("template-keys-worklist", ["C01", "C03", "C09", "C10", "C11"], O, _TK_OLD,
+       """        found: Set[str] = set()
+        pending = [value]
+        while pending:
+            item = pending.pop()
+            if isinstance(item, str):
+                found |= getattr(Template(item), method)(options)
+                continue
+            if isinstance(item, Mapping):
+                item = list(item.values())
+            if isinstance(item, list):
+                pending.extend(reversed(item))
+        return found""")
+fire("template-keys-worklist-rebound", ["C01", "C03", "C09"], "R-RK", O, _TK_OLD,
+     """        found: Set[str] = set()
+        pending = [value]
+        while pending:
+            item = pending.pop()
+            if isinstance(item, str):
+                found |= getattr(Template(item), method)(options)
+            elif isinstance(item, Mapping):
+                pending = list(item.values())
+            elif isinstance(item, list):
+                pending.extend(item)
+        return found""")
+fire("template-keys-recursion-forgets-method", ["C09", "C11"], "R-RK", O,
+     "                *(Option._template_keys(item, method, options) for item in value)",
+     "                *(Option._template_keys(item, options=options) for item in value)",
+     also=[("    def _template_keys(value: Any, method: str, options: Options) -> Set[str]:",
+            "    def _template_keys(value: Any, method: str = \"keys\", options: Options = None) -> Set[str]:")])
+silent("template-keys-collector-callable", ["C01", "C03", "C09", "C10", "C11"], O, _TK_OLD,
+       """        ask = operator.methodcaller(method, options)
+        if isinstance(value, str):
+            return ask(Template(value))
+        if isinstance(value, Mapping):
+            value = list(value.values())
+        if isinstance(value, list):
+            return set().union(*map(lambda item: Option._template_keys(item, method, options), value))
+        return set()""",
+       also=[("import functools\n", "import functools\nimport operator\n")])
+fire("fingerprint-prunes-prefixed-keys", ["C01", "C03"], "R-FP", T,
+     """        return json.dumps(
+            [{key: get_dotted_key(key, options)} for key in sorted(self.keys(options))]
+        ).encode()""",
+     """        kept = []
+        for key in sorted(self.keys(options)):
+            if not key.startswith(tuple(kept)):
+                kept.append(key)
+        return json.dumps([{key: get_dotted_key(key, options)} for key in kept]).encode()""")
+silent("fingerprint-explicit-loop", ["C01", "C02", "C03"], T,
+       """        return json.dumps(
+            [{key: get_dotted_key(key, options)} for key in sorted(self.keys(options))]
+        ).encode()""",
+       """        entries = []
+        for key in sorted(self.keys(options)):
+            entries.append({key: get_dotted_key(key, options)})
+        return json.dumps(entries).encode()""")
+fire("memorycache-evicts", ["C02"], "R-MC", C,
+     "        self._cache[evaluatable.fingerprint(options)] = value",
+     "        self._cache[evaluatable.fingerprint(options)] = value\n        if len(self._cache) > 128:\n            self._cache.pop(next(iter(self._cache)))")
+fire("get-handler-logs-before-passing-on", ["C17"], "R-CE", C,
+     "    return request.cache.get(request.evaluatable, request.options)\n\n\n@CacheExistsRequest.handle",
+     "    try:\n        return request.cache.get(request.evaluatable, request.options)\n    except CacheGetFailure:\n"
+     "        runtime.current_runtime().run(request)\n        raise\n\n\n@CacheExistsRequest.handle")
+fire("coalesce-mutable-default-accumulator", ["C12"], "R-GS", CL,
+     "        err: Optional[EvaluationError] = None\n\n        for member in self.members:",
+     "        err: Optional[EvaluationError] = None\n        seen.append(method)\n\n        for member in self.members:",
+     also=[("    def _delegate(self, method: str, options: Optional[Options]):", "    def _delegate(self, method: str, options: Optional[Options], seen=[]):")])
+fire("overloaded-repr-sorts-aliases", ["C12", "C17"], "R-OH", OV,
+     "            return f\"Overloaded({self.dispatch!r}, {self.lookup!r})\"",
+     "            return f\"Overloaded({self.dispatch!r}, {dict(sorted(self.lookup.items()))!r})\"")
+silent("overloaded-repr-sorts-by-repr", ["C12", "C17", "C20"], OV,
+       "            return f\"Overloaded({self.dispatch!r}, {self.lookup!r})\"",
+       "            return f\"Overloaded({self.dispatch!r}, {dict(sorted(self.lookup.items(), key=repr))!r})\"")
+fire("template-keys-reads-environment", ["C01", "C03", "C16"], "R-AI", TP,
+     "import re\n", "import os\nimport re\n\n_ENV = dict(os.environ)\n")
+fire("pipeline-rest-applied-lazily", ["C18", "C13"], "R-EO", PL,
+     "        rest = self.rest.evaluate(options) if self.rest else lambda x: x\n        return lambda x: tail(rest(x))",
+     "        if not self.rest:\n            return lambda x: tail(x)\n        return lambda x: tail(self.rest.transform(x, options))")
+fire("computation-validate-ignores-flag", ["C10", "C16"], "R-VO", CP,
+     "        if not _EFFECTS_DISABLED(options):\n            self.effect.transform(value, options)",
+     "        if self.enabled and not _EFFECTS_DISABLED(options):\n            self.effect.transform(value, options)",
+     also=[("        return (\n            self.evaluatable.explain(options)\n            if _EFFECTS_DISABLED(options)",
+            "        return (\n            self.evaluatable.explain(options)\n            if not self.enabled or _EFFECTS_DISABLED(options)"),
+           ("    def __repr__(self) -> str:\n        return f\"Computation({self.evaluatable!r}, {self.effect!r})\"",
+            "    enabled = True\n\n    def __repr__(self) -> str:\n        return f\"Computation({self.evaluatable!r}, {self.effect!r})\"")])
+fire("computation-explain-ignores-flag", ["C11", "C16"], "R-VO", CP,
+     "        if not _EFFECTS_DISABLED(options):\n            self.effect.transform(value, options)",
+     "        if self.enabled and not _EFFECTS_DISABLED(options):\n            self.effect.transform(value, options)",
+     also=[("        if not _EFFECTS_DISABLED(options):\n            self.effect.validate(options)",
+            "        if self.enabled and not _EFFECTS_DISABLED(options):\n            self.effect.validate(options)"),
+           ("    def __repr__(self) -> str:\n        return f\"Computation({self.evaluatable!r}, {self.effect!r})\"",
+            "    enabled = True\n\n    def __repr__(self) -> str:\n        return f\"Computation({self.evaluatable!r}, {self.effect!r})\"")])
+silent("computation-flag-in-all-siblings", ["C10", "C11", "C16", "C02"], CP,
+       "        if not _EFFECTS_DISABLED(options):\n            self.effect.transform(value, options)",
+       "        if self.enabled and not _EFFECTS_DISABLED(options):\n            self.effect.transform(value, options)",
+       also=[("        if not _EFFECTS_DISABLED(options):\n            self.effect.validate(options)",
+              "        if self.enabled and not _EFFECTS_DISABLED(options):\n            self.effect.validate(options)"),
+             ("        return (\n            self.evaluatable.explain(options)\n            if _EFFECTS_DISABLED(options)",
+              "        return (\n            self.evaluatable.explain(options)\n            if not self.enabled or _EFFECTS_DISABLED(options)"),
+             ("    def __repr__(self) -> str:\n        return f\"Computation({self.evaluatable!r}, {self.effect!r})\"",
+              "    enabled = True\n\n    def __repr__(self) -> str:\n        return f\"Computation({self.evaluatable!r}, {self.effect!r})\"")])
+silent("runtime-lock-acquire-release", ["C14", "C15"], RT,
+       "    with lock:\n        return _RUNTIMES.setdefault(threading.current_thread(), Runtime())",
+       "    lock.acquire()\n    try:\n        return _RUNTIMES.setdefault(threading.current_thread(), Runtime())\n    finally:\n        lock.release()")
+fire("runtime-lock-released-too-early", ["C15"], "R-LS", RT,
+     "    with lock:\n        return _RUNTIMES.setdefault(threading.current_thread(), Runtime())",
+     "    lock.acquire()\n    lock.release()\n    return _RUNTIMES.setdefault(threading.current_thread(), Runtime())")
+silent("apply-keys-through-methodcaller", ["C01", "C03", "C10", "C13"], T,
+       "        return self.evaluatable.keys(options) | self.func.keys(options)",
+       "        import functools, operator\n        return functools.reduce(operator.or_, map(operator.methodcaller(\"keys\", options), (self.evaluatable, self.func)))")
+fire("apply-keys-methodcaller-drops-func", ["C01", "C03", "C10", "C13"], "R-KC", T,
+     "        return self.evaluatable.keys(options) | self.func.keys(options)",
+     "        import functools, operator\n        return functools.reduce(operator.or_, map(operator.methodcaller(\"keys\", options), (self.evaluatable,)))")
